@@ -380,6 +380,9 @@ def mk_observation(fname, H, W, vshape):
             sx.cover('observation')
             sx.check(oracle_obs_member(ob, vshape, types, colors), 'observation-member')
             sx.check(ob.grid.shape == vshape, 'observation-shape')
+            # asking for its observation leaves the state a member of the state space (it can be stepped afterwards)
+            state_member_touched(sx, H, W, types, set(colors), state, 'state-after-its-observation')
+            sx.check(not state.grid.objects.writes, 'observation-writes-nothing-into-the-state', repr(state.grid.objects.writes))
         finally:
             reset_gv_debug(False)
     return h
@@ -425,6 +428,8 @@ def obligations(tier):
     views = [Shape(2, 3), Shape(3, 3), Shape(1, 1)] if q else [Shape(2, 3), Shape(3, 3), Shape(1, 1), Shape(3, 5), Shape(4, 3)]
     worlds = [(2, 2)] if q else [(2, 2), (2, 3), (3, 2)]
     for fname in ('fully_transparent', 'partially_occluded', 'raytracing', 'stochastic_raytracing'):
+        # a view exactly as large as the grid (for one pose the view IS the grid)
+        obs.append(Obligation(f'observation-{fname}-1x3-view1x3', mk_observation(fname, 1, 3, Shape(1, 3)), dict(function=fname, H=1, W=3, view=[1, 3])))
         for (H, W) in worlds:
             for v in views:
                 if fname == 'stochastic_raytracing' and q and v.height * v.width > 3:
